@@ -72,6 +72,8 @@ impl<R: VRead> VDecompressor<R> {
             r is Err ==> final(self).out@ == old(self).out@,
             (r is Ok && old(self).out@ <= old(self).total@) ==> final(self).out@ <= final(self).total@,
             (r is Ok && r->Ok_0 == 0 && old(buf)@.len() > 0) ==> old(self).out@ >= old(self).total@,
+            // (brotli::Decompressor::read: with no room in the output it returns Ok(0) before looking at its input)
+            old(buf)@.len() == 0 ==> r is Ok,
     { unimplemented!() }
 
     /// io::copy(&mut (&mut decompressor).take(n), &mut io::sink())  [rewrite R8]: discards up to n decompressed bytes
